@@ -95,10 +95,19 @@ const OPS: [&str; 6] = [
 /// component under test. Handles: pts[0]=identity, pts[1]=P (untyped),
 /// pts[2]=P typed, pts[3]=Q untyped, pts[4]=Q typed.
 fn program(c: &Case, k1: F, k2: F, bitv: F, s: F) -> Vec<Op> {
+    // a third of the cases hand the points over in a consistent extended
+    // representation with Z != 1 (same points, other coordinates)
+    let rep = |k: F, salt: u64| -> PtSpec {
+        if (c.seed ^ salt) % 3 == 0 {
+            PtSpec { kind: 3, k: Fe(k), t: 0, x: Fe(F::zero()), y: Fe(F::zero()), z: Fe(F::from(2 + (c.seed >> 7) % 1000)) }
+        } else {
+            PtSpec::sub(k)
+        }
+    };
     let mut ops = vec![
-        Op::PointWit(PtSpec::sub(k1)),
+        Op::PointWit(rep(k1, 0)),
         Op::TorsionFree(u16::MAX),
-        Op::PointWit(PtSpec::sub(k2)),
+        Op::PointWit(rep(k2, 1)),
         Op::TorsionFree(u16::MAX),
     ];
     // typed handles: tfs = [identity, P, Q] -> picks 0, 1/3, 2/3
@@ -398,6 +407,6 @@ pub fn props() -> Vec<(Box<dyn PropDyn>, u32, u32)> {
 }
 
 pub fn describe(ctx: &Ctx) {
-    ctx.rule("cases: component in {add, sub, neg, select_identity, select_point, mul_point} x subgroup points P=[k1]G, Q in {random, P, -P, identity} (k in {0, 1, r_J-1, small, random}) x scalars {0, 1, r_J-1, r_J, 2^252-1, small, random < 2^252} x bits {0, 1, 2, -1}; inputs enter as witnesses with assert_torsion_free_point. Oracle: affine twisted-Edwards law written in the harness (not dusk-jubjub's group code); satisfiability by the reference evaluator; adversaries {wires of other inputs with the inputs put back, forged x1*y2, another curve point / x3+-1 / y3+-1 / negated coordinates as the sum, non-boolean select bit, second solution of an addition row for a prover-chosen addend, and the model-free propagation adversary (returned coordinates or one internal wire decided by the prover, inputs kept, arithmetic rows re-solved)}. non-trivial = every case; distinct by full case");
+    ctx.rule("cases: component in {add, sub, neg, select_identity, select_point, mul_point} x subgroup points P=[k1]G, Q in {random, P, -P, identity} (k in {0, 1, r_J-1, small, random}) x scalars {0, 1, r_J-1, r_J, 2^252-1, small, random < 2^252} x bits {0, 1, 2, -1}; inputs enter as witnesses (a third of them in a consistent extended representation with Z != 1) with assert_torsion_free_point. Oracle: affine twisted-Edwards law written in the harness (not dusk-jubjub's group code); satisfiability by the reference evaluator; adversaries {wires of other inputs with the inputs put back, forged x1*y2, another curve point / x3+-1 / y3+-1 / negated coordinates as the sum, non-boolean select bit, second solution of an addition row for a prover-chosen addend, and the model-free propagation adversary (returned coordinates or one internal wire decided by the prover, inputs kept, arithmetic rows re-solved)}. non-trivial = every case; distinct by full case");
     ctx.assume("mul_point's internal chain is attacked through the transplant adversary and its final addition row only");
 }
